@@ -146,7 +146,7 @@ _p("C09", "proof",
 _p("C10", "proof",
    "Proved (Props/C10.v): the propose-time gate (a change survives only if pendingConfIndex <= applied, the joint/leave shape fits and the "
    "current configuration accepts it in a dry run of the Changer on the decoded payload -- the F6 repair, C10_unacceptable_change_refused --, "
-   "otherwise it is replaced by an empty normal entry; surviving changes move pendingConfIndex), hup refuses while a committed change is unapplied, a new "
+   "otherwise it is replaced by an empty normal entry; surviving changes move pendingConfIndex), hup refuses while a committed change is unapplied and the scan behind that refusal is exact on the logical log: it answers false only if no entry in (applied, committed] - entries already handed to the application included - is a configuration change, so a node that campaigns holds none (C10_unapplied_scan_exact, C10_campaign_only_without_unapplied_change, over the log view of Proofs/SliceRefine.v), a new "
    "leader's pendingConfIndex is its last index, accepted changes keep the configuration invariants (C13), joint decisions use both halves (C12); at protocol level a quorum of a joint "
    "configuration is a majority of both voter sets and with it State Machine Safety holds in a joint configuration as in a simple one "
    "(C10_joint_quorum_is_both_majorities, C10_state_machine_safety_in_joint_configuration, C10_joint_nonvacuous). "
